@@ -231,6 +231,18 @@ def helper_mm(s, vmax=2.0, km=0.5):
     return vmax * s / (km + s)
 
 
+def helper_hill(s, vmax, km=1.0, n=2.0):
+    return vmax * s**n / (km + s**n)
+
+
+def p_call_partial_defaults(x, v, k):
+    return helper_hill(x, v, k)
+
+
+def p_call_no_defaults_passed(x, v):
+    return helper_hill(x, v)
+
+
 def p_call_default_used(x):
     return helper_mm(x)
 
